@@ -214,6 +214,10 @@ func (p *Packer) pubKey(i int, jwe *jose.JSONWebEncryption) (*cryptoapi.PublicKe
 			return nil, "", fmt.Errorf("single recipient missing 'KID' in jwe.ProtectHeaders")
 		}
 	} else {
+		if jwe.Recipients[i] == nil || jwe.Recipients[i].Header == nil {
+			return nil, "", fmt.Errorf("recipient %d has no header", i)
+		}
+
 		kid = jwe.Recipients[i].Header.KID
 	}
 
